@@ -18,7 +18,7 @@ MH, MB = 262144, 1073741824
 PREFIXES = ["", "/p", "/p/q"]
 SCHEMES = ["http", "https"]
 SERVER_NAMES = ["localhost", "waitress.invalid", "srv\xe9"]
-IDENTS = ["waitress", "", "w/1.0 (\xfc)"]
+IDENTS = ["waitress", "w/1.0 (\xfc)", "x"]   # ident "" / None is turned into None by Adjustments (str_iftruthy): outside C07's configurations
 # (channel.addr, tag)
 PEERS = [(("127.0.0.1", 39830), "tcp4"), (("::1", 80, 0, 0), "tcp6"), (("localhost", None), "unix"),
          (("10.0.0.7", 0), "tcp4")]
